@@ -236,6 +236,17 @@ def tokens(text: str) -> list:
     def path() -> str:
         # block path without the "hidden" wrappers, so clause names stay in a finite list
         return '/' + '/'.join(b for b in stack if b != 'hidden')
+
+    def label(key: str) -> str:
+        # clause label of a token: path/key, with row numbers and user-chosen key names abstracted
+        top = stack[-1] if stack else ''
+        if re.match(r'row\d+\Z', key):
+            key = 'row'
+        elif top in ('world', 'entity') and key not in ('id', 'classname', 'mapversion'):
+            key = 'replaceNN' if re.match(r'replace\d\d\Z', key) else '<key>'
+        elif top == 'connections':
+            key = '<output>'
+        return path() + '/' + key
     i = 0
     while i < len(toks):
         ty, val = toks[i]
@@ -243,7 +254,7 @@ def tokens(text: str) -> list:
             if not stack:
                 raise ValueError('unbalanced }')
             stack.pop()
-            out.append({'d': len(stack), 't': 'close', 'k': '', 'v': '', 'ik': '', 'n': 0, 'p': path()})
+            out.append({'d': len(stack), 't': 'close', 'k': '', 'v': '', 'ik': '', 'n': 0, 'p': path(), 'c': path() + '/}'})
             i += 1
         elif ty == '{':
             raise ValueError('{ without a name')
@@ -252,7 +263,7 @@ def tokens(text: str) -> list:
                 raise ValueError('dangling name')
             ty2, val2 = toks[i + 1]
             if ty2 == '{':
-                out.append({'d': len(stack), 't': 'open', 'k': val, 'v': '', 'ik': '', 'n': 0, 'p': path()})
+                out.append({'d': len(stack), 't': 'open', 'k': val, 'v': '', 'ik': '', 'n': 0, 'p': path(), 'c': path() + '/' + val})
                 stack.append(val.casefold())
                 i += 2
             elif ty2 == 'S':
@@ -266,9 +277,9 @@ def tokens(text: str) -> list:
                     elif val == 'groupid' and top == 'editor':
                         kind = 'group'
                 if kind:
-                    out.append({'d': len(stack), 't': 'kv', 'k': val, 'v': '', 'ik': kind, 'n': int(val2), 'p': path()})
+                    out.append({'d': len(stack), 't': 'kv', 'k': val, 'v': '', 'ik': kind, 'n': int(val2), 'p': path(), 'c': label(val)})
                 else:
-                    out.append({'d': len(stack), 't': 'kv', 'k': val, 'v': val2, 'ik': '', 'n': 0, 'p': path()})
+                    out.append({'d': len(stack), 't': 'kv', 'k': val, 'v': val2, 'ik': '', 'n': 0, 'p': path(), 'c': label(val)})
                 i += 2
             else:
                 raise ValueError('name followed by }')
@@ -569,8 +580,8 @@ def export_parse(vmf: VMF, opts: dict, out, src: str, hist, extra_sig: dict | No
             err = err_class(exc)
             rec.update(status='error', doc2={}, toks2=[])
         else:
+            doc2 = project(vmf2)   # before the second export (which strips worldspawn's mapversion key again)
             text2 = vmf2.export(inc_version=False, minimal=opts['minimal'], disp_multiblend=opts['mb'])
-            doc2 = project(vmf2)
             try:
                 toks2 = tokens(text2)
             except ValueError:
